@@ -287,7 +287,7 @@ class PrimaiteGame:
 
             # TODO: handle simulation defaults more cleanly
             if "node_start_up_duration" in defaults_config:
-                new_node.config.start_up_duration = defaults_config["node_startup_duration"]
+                new_node.config.start_up_duration = defaults_config["node_start_up_duration"]
             if "node_shut_down_duration" in defaults_config:
                 new_node.config.shut_down_duration = defaults_config["node_shut_down_duration"]
             if "node_scan_duration" in defaults_config:
@@ -387,8 +387,13 @@ class PrimaiteGame:
                 new_node.power_on()
 
             # set start up and shut down duration
-            new_node.config.start_up_duration = int(node_cfg.get("start_up_duration", 3))
-            new_node.config.shut_down_duration = int(node_cfg.get("shut_down_duration", 3))
+            # (the node's own entry wins, then the scenario-wide default, then 3)
+            new_node.config.start_up_duration = int(
+                node_cfg.get("start_up_duration", defaults_config.get("node_start_up_duration", 3))
+            )
+            new_node.config.shut_down_duration = int(
+                node_cfg.get("shut_down_duration", defaults_config.get("node_shut_down_duration", 3))
+            )
 
         # 1.1 Create Node Sets
         for node_set_cfg in node_sets_cfg:
